@@ -145,10 +145,39 @@ func c10ParseCache(ctx *core.Ctx, cc *CC) {
 		case *ssa.MapUpdate:
 			key, kind = x.Key, "update"
 		}
-		ctx.Check(ssax.Strip(key) == opened, "C10.R8", QName(pf)+sprintf(" › cache %s #%d is keyed by the opened path", kind, i+1), cc.IPos(u), "key = the value passed to os.Open",
+		ctx.Check(dependsOn(key, opened, 0), "C10.R8", QName(pf)+sprintf(" › cache %s #%d is keyed by the opened path", kind, i+1), cc.IPos(u), "key is (computed from) the value passed to os.Open",
 			"the cache is keyed by something else than the path of the file (e.g. its base name): two different files with the same name in different directories share one entry, so an include gets another file's model (wrong declarations, or a valid program rejected)")
 	}
 	if len(uses) == 0 {
 		ctx.Discharge("C10.R8", QName(pf)+" › no cache use", cc.FPos(pf), "the memo map is not consulted")
 	}
+}
+
+// dependsOn: is target in the backward data slice of v (through operands of
+// pure instructions and calls)?
+func dependsOn(v, target ssa.Value, depth int) bool {
+	v = ssax.Strip(v)
+	if v == target {
+		return true
+	}
+	if depth > 6 {
+		return false
+	}
+	in, ok := v.(ssa.Instruction)
+	if !ok {
+		return false
+	}
+	// what is read *from* the opened file (its declared name, its contents) identifies the
+	// content, not the file: do not look through I/O calls
+	if c, isC := ssax.AsCall(in); isC {
+		if full := c.FullName(); strings.HasPrefix(full, "os.") || strings.HasPrefix(full, "io.") || strings.HasPrefix(full, "io/ioutil.") || strings.HasPrefix(full, "bufio.") {
+			return false
+		}
+	}
+	for _, op := range in.Operands(nil) {
+		if *op != nil && dependsOn(*op, target, depth+1) {
+			return true
+		}
+	}
+	return false
 }
